@@ -730,6 +730,14 @@ def r5g_usage_attribution(ctx):
         for op in db.ops_by_map.get(m, []):
             if op.mode == "S":
                 readers.add(op.fn.root)
+    # functions that read the per-name definition map themselves (`definitions.get(name)` and a pattern / index on the vector
+    # is a selection too, even without a selector call); lookups by position are not resolvers
+    def_map_readers = set()
+    for m in db.maps_where(lambda k, v: k == "std::string::String" and sel.DEF in v and not v.startswith("(")):
+        for op in db.ops_by_map.get(m, []):
+            if op.mode == "S" and op.method in ("get", "iter"):
+                def_map_readers.add(op.fn.root)
+    positional_roots = {s.fn.root for s in _def_sites(ctx) if "line" in s.fields}
     n = 0
     for root in sorted(readers):
         fam = [g for g in crate.real_fns() if g.root == root]
@@ -741,11 +749,12 @@ def r5g_usage_attribution(ctx):
                     continue
                 n += 1
                 key = "R5g|%s|%s" % (root, res.split("::")[-1])
-                if tf.root in via_core or own_sites.get(tf.root, 0) == 0:
+                picks_itself = own_sites.get(tf.root, 0) > 0 or (tf.root in def_map_readers and tf.root not in positional_roots)
+                if tf.root in via_core or not picks_itself:
                     r.ok(sample={"reader": root.split("::")[-1], "resolves_through": res.split("::")[-1]})
                 else:
-                    r.violate(key, "%s reads the usage index and attributes usages with %s, a resolver with %d selection site(s) of its "
-                                   "own outside the navigation cascade" % (root, res, own_sites[tf.root]))
+                    r.violate(key, "%s reads the usage index and attributes usages with %s, which picks a definition out of the "
+                                   "per-name map by itself (%d selection site(s)) outside the navigation cascade" % (root, res, own_sites.get(tf.root, 0)))
     r.counts["usage_index_readers"] = len(readers)
     r.floor("functions reading the usage index", len(readers), 3)
     return r
